@@ -781,6 +781,16 @@ func (ex *Exec) enterLoopHeader(st *State, fr *Frame, li *loopInfo, from *ssa.Ba
 	if isTop {
 		// ... and established
 		ex.frameCond(st, li.header.Instrs[0].Pos(), false)
+		// conditions that must hold when the loop is first reached
+		for i, c := range ex.fc.LoopEntry[li.index] {
+			eenv := ex.invEnv(st, fr, li.header, phiVals)
+			cv, err := eenv.Eval(c.Expr)
+			if err != nil {
+				ex.aborted = fmt.Sprintf("%s:%d: loop entry: %v", c.File, c.Line, err)
+				return nil, true
+			}
+			ex.addOb(st, "pre", ex.obName(fmt.Sprintf("loop%d.entry%d", li.index, i), c.Label), c.Src, li.header.Instrs[0].Pos(), cv.T)
+		}
 	}
 	// entry: establish
 	env := ex.invEnv(st, fr, li.header, phiVals)
